@@ -191,7 +191,7 @@ def tlc(module, cfg, files=None, workers=1, heap="2g", timeout=600, extra=None, 
             raise Infra("TLC resource exhaustion on %s/%s\n%s" % (module, cfg, r.out[-2000:]))
         if ("Parsing or semantic analysis failed" in r.out or "Error: " in r.out and not r.violated
                 and not r.postcondition_failed and not r.ok):
-            raise Infra("TLC error on %s/%s:\n%s" % (module, cfg, r.out[-6000:]))
+            raise Infra("TLC error on %s/%s:\n%s" % (module, cfg, r.out[r.out.find("Error:"):][:3000] if "Error:" in r.out else r.out[-3000:]))
         return r
     finally:
         if not keep and not workdir:
@@ -491,7 +491,7 @@ def run_json(cmd, inp=None, timeout=3600, env=None, cwd=None):
 
 # ---------------------------------------------------------------------------- batched trace validation
 
-def split_trace(path, outdir, max_events=60000):
+def split_trace(path, outdir, max_events=20000):
     """Split an ndjson trace at "reset" events into chunks of at most max_events lines. Returns [(file, first_line, nlines)]."""
     chunks, cur, n, first, idx = [], None, 0, 1, 0
     lineno = 0
@@ -518,13 +518,13 @@ def split_trace(path, outdir, max_events=60000):
 def tlc_many(jobs, parallel=None):
     """jobs: list of kwargs for tlc(); run in a thread pool; returns results in order."""
     from concurrent.futures import ThreadPoolExecutor
-    parallel = parallel or max(1, min(len(jobs), NCPU // 2))
+    parallel = parallel or max(1, min(len(jobs), NCPU))
     with ThreadPoolExecutor(max_workers=parallel) as ex:
         futs = [ex.submit(lambda kw=kw: tlc(**kw)) for kw in jobs]
         return [f.result() for f in futs]
 
 
-def monitor_trace(module, cfg, trace_path, max_events=60000, heap="3g", timeout=900):
+def monitor_trace(module, cfg, trace_path, max_events=20000, heap="2g", timeout=900):
     """Run a monitor specification (accumulating `viol`) over a trace, chunked. Returns (viols [[case,name]..], events, states)."""
     d = scratch("mon")
     try:
@@ -545,7 +545,7 @@ def monitor_trace(module, cfg, trace_path, max_events=60000, heap="3g", timeout=
         rm(d)
 
 
-def conform_trace(module, cfg, trace_path, case_of_line, max_events=60000, heap="3g", timeout=900, max_drift=12):
+def conform_trace(module, cfg, trace_path, case_of_line, max_events=20000, heap="2g", timeout=900, max_drift=12):
     """Run a conformance trace specification; a rejected execution is dropped and the rest re-validated.
     case_of_line(lineno) -> (case_id, first_line, last_line). Returns (drift [(case, line, longest prefix)], visited_max, accepted_events)."""
     d = scratch("conf")
